@@ -59,36 +59,73 @@ Inductive dval : Type :=
 
 Definition dnone : dval := VS 0.
 
-(** _recover_dual_values, lines 204-223: [counter] walks through [dual_values_temp] (one value per
-    solver constraint), [counter2] counts what is kept. *)
+(** float(dual_value) of the dual of a scalar constraint *)
+Definition scalar_of (d : dval) : Q := match d with VS q => q | VM _ => 0 end.
+
+(** numpy reshape of a flat list to (n, m), row-major *)
+Fixpoint reshape (m : nat) (l : list Q) (n : nat) : list (list Q) :=
+  match n with
+  | O => []
+  | S n' => firstn m l :: reshape m (skipn m l) n'
+  end.
+
+(** np.array([float(d) for d in dual_values_temp[counter:counter + size]]).reshape(shape) *)
+Definition entries_at (temp : list dval) (counter : nat) (m : list (list edict)) : list (list Q) :=
+  reshape (ncols m) (map scalar_of (firstn (nrows m * ncols m) (skipn counter temp))) (nrows m).
+
+(** _recover_dual_values, lines 204-228: [counter] walks through [dual_values_temp] (one value per
+    solver constraint), [counter2] counts what is kept.  For an LMI the duals of its n*m entry equalities
+    are stored, reshaped, in PSDMatrix.entries_dual_variable_value (second component; None for a scalar
+    constraint). *)
 Fixpoint recover_loop (tracked : sent) (temp : list dval) (counter counter2 : nat)
-  : list dval * nat :=
+  : list dval * list (option (list (list Q))) * nat :=
   match tracked with
-  | [] => ([], counter2)
+  | [] => ([], [], counter2)
   | SC _ _ :: r =>
       let d := nth counter temp dnone in
-      let '(ds, c2) := recover_loop r temp (counter + 1) (counter2 + 1) in
-      (d :: ds, c2)
+      let '(ds, es, c2) := recover_loop r temp (counter + 1) (counter2 + 1) in
+      (d :: ds, None :: es, c2)
   | LMI m :: r =>
       let d := nth counter temp dnone in
       let size := (nrows m * ncols m)%nat in
-      let '(ds, c2) := recover_loop r temp (counter + 1 + size) (counter2 + 1) in
-      (d :: ds, c2)
+      let u := entries_at temp (counter + 1) m in
+      let '(ds, es, c2) := recover_loop r temp (counter + 1 + size) (counter2 + 1) in
+      (d :: ds, Some u :: es, c2)
   end.
 
-(** returns (dual_values, residual, counter2); the Python code asserts len(dual_values) == counter2 *)
-Definition recover (tracked : sent) (temp : list dval) : list dval * dval * nat :=
+(** returns (dual_values, residual, counter2, entries); the Python code asserts len(dual_values) == counter2 *)
+Definition recover (tracked : sent) (temp : list dval)
+  : list dval * dval * nat * list (option (list (list Q))) :=
   let residual := nth 0 temp dnone in
-  let '(ds, c2) := recover_loop tracked temp 1 1 in
-  (residual :: ds, residual, c2).
+  let '(ds, es, c2) := recover_loop tracked temp 1 1 in
+  (residual :: ds, residual, c2, es).
 
 (** assign_dual_values: [zip(self._list_of_constraints_sent_to_solver, dual_values[1:])] *)
 Definition assign (tracked : sent) (dual_values : list dval) : list (item * dval) :=
   combine tracked (tl dual_values).
 
-(** what PEP.solve leaves behind: (constraint-or-LMI, its eval_dual()) in send order, and PEP.residual *)
-Definition exposed (tracked : sent) (temp : list dval) : list (item * dval) * dval :=
-  let '(dv, res, _) := recover tracked temp in (assign tracked dv, res).
+(** Object identity.  The tracked list holds Python OBJECTS; [ids] gives, for each position, an identifier
+    of the object sitting there (equal identifiers = the very same Constraint / PSDMatrix object sent
+    several times).  Both stores ( _dual_variable_value in assign_dual_values, entries_dual_variable_value
+    in _recover_dual_values ) are attribute assignments in list order, so what an object shows afterwards
+    is the value of its LAST occurrence. *)
+Fixpoint last_pos_from (ids : list nat) (x : nat) (i : nat) (found : nat) : nat :=
+  match ids with
+  | [] => found
+  | y :: r => last_pos_from r x (S i) (if Nat.eqb y x then i else found)
+  end.
+Definition by_object {A} (ids : list nat) (vals : list A) (dflt : A) : list A :=
+  map (fun k => nth (last_pos_from ids (nth k ids 0%nat) 0 k) vals dflt) (seq 0 (length vals)).
+
+(** one exposed entry: the object, its eval_dual(), its entries_dual_variable_value *)
+Definition expo : Type := (item * dval * option (list (list Q)))%type.
+
+(** what PEP.solve leaves behind: for every position of the tracked list (the PEP's two lists are its
+    sub-sequences) what the object there shows, in send order, and PEP.residual *)
+Definition exposed (tracked : sent) (ids : list nat) (temp : list dval) : list expo * dval :=
+  let '(dv, res, _, es) := recover tracked temp in
+  let a := assign tracked dv in
+  (combine (combine tracked (by_object ids (map snd a) dnone)) (by_object ids es None), res).
 
 (** ** The cvxpy problem object and the heuristic *)
 Inductive objective : Type :=
